@@ -99,7 +99,7 @@ func c15Typed(c *Case) {
 	g := c.G()
 	d := valueDoc(c.GShared("doc", int64(c.Index/32)))
 	ctx := d.Nodes[g.Intn(len(d.Nodes))]
-	args := []string{"1", "'a'", "''", "true()", "a", "//b", "@id", "/", ".", "1 div 0", "0 div 0", "'[a'", "-1", "text()", "$v", "(a | b)", "a = b", "count(a)", "'$1'", "2.5", "string()", "position()", "last()", "..", "//@*", "reverse(a)", "1 = 1", "'1'"}
+	args := []string{"'é'", "'aé中'", "'abc'", "1", "'a'", "''", "true()", "a", "//b", "@id", "/", ".", "1 div 0", "0 div 0", "'[a'", "-1", "text()", "$v", "(a | b)", "a = b", "count(a)", "'$1'", "2.5", "string()", "position()", "last()", "..", "//@*", "reverse(a)", "1 = 1", "'1'"}
 	fns := xgen.AllFuncs
 	fn := fns[(c.Index/7)%len(fns)]
 	if fn == "round" {
@@ -257,6 +257,25 @@ func c17Damage(c *Case) {
 						cp2 := append(append([]xref.Tok(nil), toks[:i+2]...), toks[end:]...)
 						if !try("remove-args", join(cp2)) {
 							return
+						}
+						// remove trailing arguments one at a time (cut at each top-level comma) until fewer than the mandatory number remain
+						depth = 0
+						nargs := 1
+						for k := i + 1; k < end; k++ {
+							switch {
+							case toks[k].K == xref.TPunct && (toks[k].S == "(" || toks[k].S == "["):
+								depth++
+							case toks[k].K == xref.TPunct && (toks[k].S == ")" || toks[k].S == "]"):
+								depth--
+							case toks[k].K == xref.TPunct && toks[k].S == "," && depth == 1:
+								if nargs < xref.FuncArity[t.S][0] {
+									cp3 := append(append([]xref.Tok(nil), toks[:k]...), toks[end:]...)
+									if !try("remove-args", join(cp3)) {
+										return
+									}
+								}
+								nargs++
+							}
 						}
 					}
 				}
